@@ -3,7 +3,7 @@
    Model: Iso/Defs.v (one CppCheck object reused by SingleExecutor::check; the per-file
    analysis is the abstract record fileA, the suppression list and logger gate are C23's). *)
 From CV Require Import Base.Bytes Base.Glob Supp.Defs Supp.Proofs Supp.ListProofs Supp.ExecDefs Supp.Run
-     Iso.Defs Iso.Proofs Iso.Gen_Resets Iso.Resets Iso.Witness.
+     Iso.Defs Iso.Proofs Iso.Gen_Resets Iso.Resets Iso.Witness Iso.Fs Iso.FsProofs.
 
 (* T: the reset points and exits of CppCheck::check / checkInternal extracted from the
    current lib/cppcheck.cpp are, in order, the ones the model was written against *)
@@ -86,6 +86,45 @@ Theorem C17_cached_return_isolated :
     /\ map o_rec oa = [true] /\ map o_rec o2 = [true] /\ o2 = oa.
 Proof. exact cached_return_isolated. Qed.
 Print Assumptions C17_cached_return_isolated.
+
+(* ---- project path: CppCheck::check(const FileSettings&), model Iso/Fs.v ---- *)
+
+(* T: the per-file settings object is a fresh local copy of the run's settings, followed by exactly
+   the writes of `apply_onto` (extracted from the current source) *)
+Theorem C17_fs_points_as_modelled : fs_points = modelled_fs.
+Proof. exact fs_points_as_modelled. Qed.
+Print Assumptions C17_fs_points_as_modelled.
+
+(* the settings an entry is analysed with are a function of the base settings and its own entry
+   only, for every project and every position *)
+Theorem C17_fs_settings_function_of_entry pm ug base analyze fss S S' rs :
+  run_project pm ug base analyze S fss = Some (S', rs) ->
+  map fst rs = map (apply_onto base) fss.
+Proof. exact (fs_settings_function_of_entry pm ug base analyze fss S S' rs). Qed.
+Print Assumptions C17_fs_settings_function_of_entry.
+
+(* and its findings are those of the entry analysed alone, provided the suppressions added by the
+   other entries do not concern it (own logger per entry: no duplicate list, location macros or
+   remarks are inherited) *)
+Theorem C17_fs_file_isolated pm ug base analyze n0 nf0 extra S fs S' ts o Sa tsa oa :
+  let f := analyze (apply_onto base fs) (fs_file fs) in
+  covers extra (l_nomsg (i_log S)) n0 ->
+  (forall s e, In s extra -> In e (queries_of f) -> hides pm ug e s = false) ->
+  (forall s s', In s extra -> In s' (inline_of f) -> same_params s' s = false) ->
+  check_file_fs pm ug base analyze S fs = Some (S', (ts, o)) ->
+  check_file_fs pm ug base analyze (fresh_state n0 nf0) fs = Some (Sa, (tsa, oa)) ->
+  ts = tsa /\ o = oa.
+Proof. exact (fs_file_isolated pm ug base analyze n0 nf0 extra S fs S' ts o Sa tsa oa). Qed.
+Print Assumptions C17_fs_file_isolated.
+
+(* why the copy has to be fresh: one reused settings object hands -std (and the platform) of an
+   entry on to the next entry that names none *)
+Theorem C17_fs_reuse_would_leak :
+  nth 1 (reuse_settings ex_base [ex_a; ex_b]) ex_base <> apply_onto ex_base ex_b
+  /\ ps_stdcpp (nth 1 (reuse_settings ex_base [ex_a; ex_b]) ex_base) = CPP03
+  /\ ps_stdcpp (apply_onto ex_base ex_b) = [].
+Proof. exact reuse_would_leak. Qed.
+Print Assumptions C17_fs_reuse_would_leak.
 
 (* the premises are inhabited: a file with a remark, an inline suppression, a location
    macro and a finding is independent of ... and precedes wb without changing its findings *)
